@@ -229,3 +229,10 @@ package state
 //@   trusted
 //@   ensures mnonce == store(old(mnonce), ms, store(old(mnonce)[ms], addr, nonce))
 //@   assigns mnonce
+
+// Ghost instrumentation (C05): setting a balance changes the ledger by the new amount minus the
+// previous balance, which is never negative.
+//@ func StateDB.SetBalance
+//@   trusted
+//@   ensures supply <= old(supply) + old(big(amount))
+//@   assigns supply
